@@ -117,11 +117,17 @@ def encrypt (S : SE B DM) (max fuel : Nat) (data : B) : Except EncErr (Chunk B Ã
 
 /-! ## The client entry points that take the caller's bytes to self-encryption (`client/data/mod.rs`, `data/public.rs`) -/
 
-/-- `Client::data_put` (private), `Client::data_put_public`, `Client::data_cost` -/
+/-- `Client::data_put` (private), `Client::data_put_public`, `Client::data_cost`, `external_signer::encrypt_data` (also
+behind the wasm binding `encryptData`), `Client::file_cost` (the direct `encrypt` of the file's bytes for the archive's
+map address). These are ALL the callers of the repo's `encrypt` in autonomi/src (`Gen.SelfEnc.encryptCallSites`: the
+translation fails on an unlisted one), apart from python.rs, which calls the third-party crate directly
+(`pythonEncrypt` below). -/
 inductive Entry where
   | dataPut
   | dataPutPublic
   | dataCost
+  | externalSigner
+  | fileCost
   deriving DecidableEq, Repr
 
 /-- does this entry point hand the caller's bytes to `encrypt` unchanged (read from the source by rs2lean)? -/
@@ -129,6 +135,13 @@ def Entry.passesBytesUnchanged : Entry â†’ Bool
   | .dataPut => Gen.SelfEnc.dataPutEncryptsCallerBytes
   | .dataPutPublic => Gen.SelfEnc.dataPutPublicEncryptsCallerBytes
   | .dataCost => Gen.SelfEnc.dataCostEncryptsCallerBytes
+  | .externalSigner => Gen.SelfEnc.externalSignerEncryptsCallerBytes
+  | .fileCost => Gen.SelfEnc.fileCostEncryptsFileBytes
+
+/-- python.rs `encrypt`: the third-party `self_encryption::encrypt` on the caller's bytes, its `DataMap` returned bare (no
+`pack_data_map`, no `DataMapLevel`): `none` = the crate's error for an input that is too small -/
+def pythonEncrypt (S : SE B DM) (data : B) : Option (DM Ã— List B) :=
+  if Gen.SelfEnc.pythonEncryptBypassesPacking then S.enc data else none
 
 /-- What the entry point self-encrypts: the caller's bytes, or â€” if the source does anything else with them first â€”
 some unknown function `pre` of them. Everything after `encrypt` (payment, upload, reporting) does not touch the result:
@@ -147,6 +160,8 @@ def uploaded (e : Entry) (dataMapChunk : Chunk B) (chunks : List (Chunk B)) : Li
     (if Gen.SelfEnc.dataPutPublicUploadsChunks then chunks else []) ++
       (if Gen.SelfEnc.dataPutPublicUploadsDataMap then [dataMapChunk] else [])
   | .dataCost => []
+  | .externalSigner => []
+  | .fileCost => []
 
 /-- The records `upload_chunks_with_retries` / `chunk_upload_with_payment` PUT, as the chunks a holder then stores under
 their keys: every handed-in chunk the receipt has an entry for (`paid`, by chunk name = address), keyed by its own
